@@ -399,11 +399,13 @@ def scan_lexicons(source: AnyPath) -> list[ScanInfo]:
     infos: list[ScanInfo] = []
 
     # attribute values may be quoted with " or ' and may contain > or the
-    # other quote character
+    # other quote character; comments, CDATA sections, and processing
+    # instructions are matched first so tags inside them are skipped
     lex_re = re.compile(
-        b'<(Lexicon|LexiconExtension|Extends)\\b'
+        b'<!--.*?-->|<!\\[CDATA\\[.*?\\]\\]>|<\\?.*?\\?>'
+        b'|<(Lexicon|LexiconExtension|Extends)\\b'
         b'((?:[^>"\']|"[^"]*"|\'[^\']*\')*)>',
-        flags=re.M
+        flags=re.M | re.S
     )
     attr_re = re.compile(
         b'''([^\\s=]+)\\s*=\\s*(?:"([^"]*)"|'([^']*)')''',
@@ -413,6 +415,8 @@ def scan_lexicons(source: AnyPath) -> list[ScanInfo]:
     with open(source, 'rb') as fh:
         for m in lex_re.finditer(fh.read()):
             lextype, remainder = m.groups()
+            if lextype is None:
+                continue  # comment, CDATA section, or processing instruction
             attrs: dict[str, str] = {}
             for _m in attr_re.finditer(remainder):
                 name = _m.group(1).decode("utf-8")
